@@ -194,7 +194,7 @@ def strategy():
     @st.composite
     def circ_cases(draw):
         n = draw(st.sampled_from([2, 3, 4, 5, 6]))
-        case = {"kind": "circuit", "n": n, "ops": draw(hyp.clifford_ops(n, max_len=60))}
+        case = {"kind": "circuit", "n": n, "ops": draw(hyp.clifford_ops(n, max_len=draw(st.sampled_from([20, 60, 60, 200]))))}
         if draw(st.integers(0, 2)) == 0:      # the same circuit spread over several quantum registers
             cuts = sorted(set(draw(st.lists(st.integers(1, n - 1), min_size=1, max_size=2))))
             case["registers"] = [b - a for a, b in zip([0] + cuts, cuts + [n])]
